@@ -291,7 +291,7 @@ theorem fcExtrasOf_ok (c : Codec) (ex : Option Members) (h : okMembers (ex.getD 
       have h2 := normVal_ok _ h1
       have h3 := valOfMembers_ok _ h1
       simp only [canonProps, h2]
-      simp [fcExtrasOf, hasInfMembers_ok _ h1, h3]
+      simp [fcExtrasOf, hasInfMembers_ok _ h1, hasBadMembers_ok _ h1, h3]
 
 /-- **Feature collection round trip** (json and bson) -/
 theorem fc_roundtrip' (c : Codec) (x : FC) (hok : okFC x = true) (hb : c = .json ∨ okFCB x = true) :
